@@ -992,6 +992,11 @@ func (s *sess) endBlock(next uint64) {
 	if showNames(v.namesB) != showNames(v.namesI) {
 		s.fail("block boundary: buffered names " + showNames(v.namesB) + " differ from committed names " + showNames(v.namesI))
 	}
+	// the parameter table in memory against the one loadParams builds from the committed state; nothing pending
+	cur, next := system.VerifC15ParamsMemory()
+	if a, b := showParams(cur), showParams(system.VerifC15ParamsLoad(fscs)); a != b || len(next) > 0 {
+		s.fail("block boundary: system parameters in memory [" + a + "] (pending [" + showParams(next) + "]) differ from the ones loaded from the committed state [" + b + "]")
+	}
 	s.inv(v)
 	s.h = next
 }
@@ -1412,7 +1417,7 @@ func (s *sess) randomSession(steps int, tiePool bool, large bool) {
 			case 4:
 				args = []string{"600000000000000000000000000"}
 			case 5:
-				args = []string{"007"}
+				args = []string{[]string{"007", "-5", "+3", "-0", "-", "-1000000000000000000000"}[rng.Intn(6)]}
 			case 6:
 				args = nil
 				if !rng.Chance(1, 4) {
@@ -1677,6 +1682,24 @@ func scripted(run *vh.Run, fd *findings) {
 		s.endBlock(4 + 2*D)
 		s.close()
 	}
+	// R5: signed parameter candidates (a winning negative number left memory = -5, state = 5 before 949e5958)
+	{
+		s := newSess(run, fd, run.Rng.Fork(), 2, "scripted:signed-parameter-candidates")
+		a := s.addAcct(fixedAddr(21), coins(20000))
+		s.h = 2
+		s.stake(a, coins(10000))
+		s.voteDAO(a, "GASPRICE", []string{"-5"})
+		s.voteDAO(a, "BPCOUNT", []string{"+7"})
+		s.voteDAO(a, "STAKINGMIN", []string{"-0"})
+		s.voteDAO(a, "NAMEPRICE", []string{"-"})
+		s.voteDAO(a, "NAMEPRICE", []string{"-600000000000000000000000000"}) // below every upper bound: admitted
+		s.endBlock(3)
+		s.restart()
+		s.endBlock(3 + D)
+		s.voteDAO(a, "GASPRICE", []string{"5"}) // a different candidate string with the same value
+		s.endBlock(4 + D)
+		s.close()
+	}
 	// K1: two candidates equal from byte 7 on with equal tallies (DESIGN lead 4)
 	{
 		s := newSess(run, fd, run.Rng.Fork(), 2, "scripted:tie")
@@ -1799,15 +1822,21 @@ func pureOps(run *vh.Run) {
 		run.Op(fmt.Sprintf("less %s %s %s %s", hx(a.cand), a.amt, hx(b.cand), b.amt), out, true)
 		run.Count("less:" + out)
 	}
-	// a candidate shorter than 7 bytes on the right of a 39-byte one with equal amount: Candidate[7:] panics
+	// a candidate shorter than 7 bytes on the right of a 39-byte one with equal amount: Candidate[7:] panicked
 	{
-		a, b := entry{peerID(2, fill(1)), coins(1)}, entry{[]byte("13"), coins(1)}
-		_, p := vh.Guard(func() string { realLess(a, b); return "" })
-		out := "no-panic"
-		if p {
-			out = "panic"
+		// (regression: repaired by 3f9132cd; a 39-character parameter candidate tied with a short one)
+		for _, pr := range [][2]entry{{{peerID(2, fill(1)), coins(1)}, {[]byte("13"), coins(1)}},
+			{{[]byte("000000000000000000000000000000000000005"), coins(2)}, {[]byte("3"), coins(2)}}} {
+			a, b := pr[0], pr[1]
+			var ab, ba bool
+			_, p := vh.Guard(func() string { ab = realLess(a, b); ba = realLess(b, a); return "" })
+			out := fmt.Sprintf("%d %d", b01(ab), b01(ba))
+			if p {
+				out = "panic"
+				run.Fail("VoteList.Less panics", map[string]interface{}{"a": hx(a.cand), "b": hx(b.cand)})
+			}
+			run.Op(fmt.Sprintf("less %s %s %s %s", hx(a.cand), a.amt, hx(b.cand), b.amt), out, true)
 		}
-		run.Op(fmt.Sprintf("less %s %s %s %s", hx(a.cand), a.amt, hx(b.cand), b.amt), out, true)
 	}
 	for i := 0; i < n/4; i++ {
 		k := 1 + rng.Intn(7)
@@ -1990,18 +2019,6 @@ func main() {
 	types.InitGovernance("dpos", true)
 	fd := &findings{run: run, seen: map[string]bool{}}
 	only := os.Getenv("C15_ONLY") // debugging aid: "node" runs the node-level part alone
-	if only == "neg" {
-		s := newSess(run, fd, run.Rng.Fork(), 2, "scripted:negative-parameter")
-		a := s.addAcct(fixedAddr(20), coins(20000))
-		s.h = 2
-		s.stake(a, coins(10000))
-		s.voteDAO(a, "GASPRICE", []string{"-5"})
-		s.voteDAO(a, "BPCOUNT", []string{"+7"})
-		s.endBlock(3)
-		cur, next := system.VerifC15ParamsMemory()
-		fmt.Fprintf(os.Stderr, "memory %s next %s\nstate  %s\n", showParams(cur), showParams(next), showParams(system.VerifC15ParamsLoad(s.sys())))
-		return
-	}
 	if only == "" || only == "node" {
 		nodeScripted(run, fd)
 		for i := 0; i < run.Pick(10, 120); i++ {
